@@ -8,7 +8,7 @@
    for * (pempty_laws); eval / derivative of the empty polynomial PANIC in the code and in the model
    (empty_eval_panics) -- that is why the evaluation theorems carry p <> [] hypotheses. *)
 From Coq Require Import List Arith ZArith.
-From OV Require Import Base.Panic Base.Arith Inst.QcInst Model.Poly Proofs.Poly.
+From OV Require Import Base.Panic Base.Arith Inst.QcInst Model.Poly Proofs.Poly Proofs.PolyExtra.
 Import ListNotations.
 
 (* the commutative-ring hypothesis is satisfiable: Qc *)
@@ -200,3 +200,53 @@ Check pderiv_n_orders : forall (A : Arith) (p : list A), p <> [] ->
 Print Assumptions pderiv_n_orders.
 Example pderiv_n_orders_nonvacuous : [q 1 1; q 2 1; q 3 1] <> ([] : list AQ).
 Proof. discriminate. Qed.
+
+(* ---------------------------------------------------------------- is_zero / trim / index (anchors: trim / is_zero, index operator) *)
+(* the explicit guard of Index / IndexMut fires exactly on index >= len (every arithmetic) *)
+Theorem pindex_spec : forall (A : Arith) (p : list A) i (x : A),
+  (i < length p -> pindex p i = Ok (nth i p zero) /\ pindex_set p i x = Ok (upd_list p i x)) /\
+  (length p <= i -> pindex p i = Panic Guard /\ pindex_set p i x = Panic Guard).
+Proof. intros A p i x. exact (pindex_spec_lemma p i x). Qed.
+Check pindex_spec : forall (A : Arith) (p : list A) i (x : A),
+  (i < length p -> pindex p i = Ok (nth i p zero) /\ pindex_set p i x = Ok (upd_list p i x)) /\
+  (length p <= i -> pindex p i = Panic Guard /\ pindex_set p i x = Panic Guard).
+Print Assumptions pindex_spec.
+
+(* is_zero and trim compare with ==; where == decides equality (Rat / Qc; not f64: NaN, -0.0) they mean
+   "all coefficients are zero" and "drop the zero coefficients above the true degree, keep at least one" *)
+Theorem is_zero_spec : forall (A : Arith), (forall x y : A, eqb x y = true <-> x = y) ->
+  forall p : list A, is_zero p = true <-> forall k, nth k p zero = zero.
+Proof. intros A H p. exact (is_zero_spec_lemma H p). Qed.
+Check is_zero_spec : forall (A : Arith), (forall x y : A, eqb x y = true <-> x = y) ->
+  forall p : list A, is_zero p = true <-> forall k, nth k p zero = zero.
+Print Assumptions is_zero_spec.
+Example is_zero_spec_nonvacuous : forall x y : AQ, eqb x y = true <-> x = y.
+Proof. exact Qc_eqb_spec. Qed.
+
+Theorem ptrim_spec : forall (A : Arith), (forall x y : A, eqb x y = true <-> x = y) -> forall p : list A,
+  (p = [] -> ptrim p = Panic Underflow) /\
+  (p <> [] -> exists p' n, ptrim p = Ok p' /\ p = p' ++ repeat zero n /\ p' <> [] /\
+                           (forall k, nth k p' zero = nth k p zero) /\ (length p' = 1 \/ last p' zero <> zero)).
+Proof. intros A H p. exact (ptrim_spec_lemma H p). Qed.
+Check ptrim_spec : forall (A : Arith), (forall x y : A, eqb x y = true <-> x = y) -> forall p : list A,
+  (p = [] -> ptrim p = Panic Underflow) /\
+  (p <> [] -> exists p' n, ptrim p = Ok p' /\ p = p' ++ repeat zero n /\ p' <> [] /\
+                           (forall k, nth k p' zero = nth k p zero) /\ (length p' = 1 \/ last p' zero <> zero)).
+Print Assumptions ptrim_spec.
+Example ptrim_spec_nonvacuous : (forall x y : AQ, eqb x y = true <-> x = y) /\ [q 1 1; q 0 1; q 2 1; q 0 1; q 0 1] <> ([] : list AQ).
+Proof. split; [exact Qc_eqb_spec|discriminate]. Qed.
+
+(* ---------------------------------------------------------------- the same at Qc, hypotheses discharged *)
+Theorem peval_pmul_Qc : forall (p q : list AQ) (x : AQ), p <> [] -> q <> [] ->
+  exists a b, peval p x = Ok a /\ peval q x = Ok b /\ peval (pmul p q) x = Ok (mul a b).
+Proof. exact (peval_pmul_lemma AQ_RingLaws). Qed.
+Check peval_pmul_Qc : forall (p q : list AQ) (x : AQ), p <> [] -> q <> [] ->
+  exists a b, peval p x = Ok a /\ peval q x = Ok b /\ peval (pmul p q) x = Ok (mul a b).
+Print Assumptions peval_pmul_Qc.
+
+Theorem pderiv_product_Qc : forall (p q dp dq : list AQ), pderiv p = Ok dp -> pderiv q = Ok dq ->
+  pderiv (pmul p q) = Ok (padd (pmul dp q) (pmul p dq)).
+Proof. exact (pderiv_pmul AQ_RingLaws). Qed.
+Check pderiv_product_Qc : forall (p q dp dq : list AQ), pderiv p = Ok dp -> pderiv q = Ok dq ->
+  pderiv (pmul p q) = Ok (padd (pmul dp q) (pmul p dq)).
+Print Assumptions pderiv_product_Qc.
